@@ -266,6 +266,10 @@ class ScriptedImpl:
                 data = make_rows(state.mname, pos, st.get("rows", 1), m["out_cols"], st.get("pad", 0))
             batch = pa.RecordBatch.from_pydict(data, schema=out.output_schema)
             out.emit(batch, metadata=st.get("meta"))
+            # optional: logs emitted after the data batch of the step, and a failure after that
+            self._emit_logs(st.get("post_logs", []), out.client_log)
+            if st.get("raise_after"):
+                self._raise(st["raise_after"])
         if act in ("finish", "emit_finish"):
             out.finish()
 
